@@ -36,6 +36,16 @@ def discharge(ob, z3_ms=10000, cvc5_s=30, use_cvc5=True, scratch=None):
         if s0.check() == z3.unsat:
             ob.status, ob.backend, ob.time = "proved", "z3", time.time() - t0
             return ob
+    # second attempt: E-matching only (model-based instantiation off): faster and far more stable for proofs
+    if len(qf) < len(ob.hyps) or has_quant(ob.goal):
+        s1 = _solver(ob, z3_ms)
+        s1.set("smt.mbqi", False)
+        try:
+            if s1.check() == z3.unsat:
+                ob.status, ob.backend, ob.time = "proved", "z3", time.time() - t0
+                return ob
+        except z3.Z3Exception:
+            pass
     s = _solver(ob, z3_ms)
     try:
         r = s.check()
@@ -68,6 +78,62 @@ def discharge(ob, z3_ms=10000, cvc5_s=30, use_cvc5=True, scratch=None):
         ob.detail += " cvc5: " + res
     ob.status, ob.backend = "unknown", "z3+cvc5" if use_cvc5 else "z3"
     return ob
+
+
+def discharge_smt2(txt, z3_ms=10000, cvc5_s=30, use_cvc5=True):
+    """Same staged strategy on an obligation shipped as SMT-LIB text (hypotheses ..., negated goal last)."""
+    from .exec import has_quant
+    t0 = time.time()
+    fs = list(z3.parse_smt2_string(txt))
+
+    def attempt(asserts, ms, **opts):
+        s = z3.Solver()
+        s.set("timeout", ms)
+        for k, v in opts.items():
+            s.set(k, v)
+        for f in asserts:
+            s.add(f)
+        try:
+            return s.check(), s
+        except z3.Z3Exception:
+            return z3.unknown, s
+    qf = [f for f in fs[:-1] if not has_quant(f)]
+    quantified = len(qf) < len(fs) - 1 or has_quant(fs[-1])
+    if quantified and not has_quant(fs[-1]):
+        r, _ = attempt(qf + [fs[-1]], min(2000, z3_ms))
+        if r == z3.unsat:
+            return dict(status="proved", backend="z3", time=time.time() - t0, detail="")
+    if quantified:
+        r, _ = attempt(fs, z3_ms, **{"smt.mbqi": False})
+        if r == z3.unsat:
+            return dict(status="proved", backend="z3", time=time.time() - t0, detail="")
+    r, s = attempt(fs, z3_ms)
+    if r == z3.unsat:
+        return dict(status="proved", backend="z3", time=time.time() - t0, detail="")
+    if r == z3.sat:
+        try:
+            det = _model_text(s.model())
+        except Exception:
+            det = ""
+        return dict(status="refuted", backend="z3", time=time.time() - t0, detail=det)
+    detail = "z3: " + s.reason_unknown()
+    if use_cvc5 and os.path.exists(CVC5):
+        res = run_cvc5(txt, cvc5_s)
+        if res == "unsat":
+            return dict(status="proved", backend="cvc5", time=time.time() - t0, detail="")
+        if res == "sat":
+            return dict(status="refuted", backend="cvc5", time=time.time() - t0, detail="cvc5 sat")
+        detail += " cvc5: " + res
+    return dict(status="unknown", backend="z3+cvc5" if use_cvc5 else "z3", time=time.time() - t0, detail=detail)
+
+
+def to_smt2(ob):
+    s = z3.Solver()
+    for h in ob.hyps:
+        s.add(h)
+    s.add(VStr.distinct_axiom())
+    s.add(z3.Not(ob.goal))
+    return s.to_smt2()
 
 
 def run_cvc5(smt2, tlimit_s, scratch=None):
